@@ -111,6 +111,41 @@ def counter_writers(ctx, rule):
             else:
                 ctx.bad(rule, inst, '%s writes the counter %s (%s): identifiers handed out before are issued again afterwards' % (base.rsplit('::', 1)[1], f, kind), ctx.where(B, bb),
                         key='WHO:%s:writes:%s' % (base, f))
+    # the same question for code outside the allocator's module: a function that did not exist on the reviewed tree is looked at where it
+    # was spliced in, so a new `release()` / `reset()` called from the node shows up as a store to the counter in the node's own body
+    for B in P.all():
+        if B.path.startswith('edp_client::pid_allocator::') or B.b.get('crate') not in ('edp_client', 'edp_node'):
+            continue
+        for bb, t in B.calls():
+            kind = is_atomic_call(t)
+            if not kind or kind == 'load' or not t['args'] or t['args'][0].get('k') not in ('cp', 'mv'):
+                continue
+            f = None
+            l_ = t['args'][0]['pl']['l']
+            for _ in range(4):
+                d0 = B.single_def(l_) or B.reaching_def(l_, (bb, None))
+                if not (d0 and d0[0] == 's'):
+                    break
+                rv = d0[3]['rv']
+                if rv['k'] == 'ref':
+                    last = (rv['pl'].get('p') or [None])[-1]
+                    if isinstance(last, dict) and last.get('adt') == PA and last.get('n') in ('next_id', 'next_serial'):
+                        f = last['n']
+                        break
+                    if (rv['pl'].get('p') or []) == ['*']:
+                        l_ = rv['pl']['l']
+                        continue
+                    break
+                if rv['k'] == 'use' and rv['op'].get('k') in ('cp', 'mv') and not rv['op']['pl'].get('p'):
+                    l_ = rv['op']['pl']['l']
+                    continue
+                break
+            if f is None:
+                continue
+            n += 1
+            who = t.get('inl') or B.path.split('::{')[0]
+            ctx.bad(rule, '%s:%s(%s)' % (B.path.split('::{')[0].rsplit('::', 1)[1], kind, f), 'code outside allocate() / the constructor writes the counter %s (%s), reached from %s: identifiers handed out before are issued again afterwards'
+                    % (f, kind, B.path.split('::{')[0]), ctx.where(B, bb), key='WHO:%s:writes:%s' % (B.path.split('::{')[0], f))
     ctx.anchor(n >= 2, PA + ': writes of next_id / next_serial')
 
 
